@@ -13,8 +13,9 @@ CONSTANTS W,        \* max number of non-default layout options switched on at o
 
 KeyPool   == { <<"K">>, <<"K","D">>, <<"K","H","K">> }
 SpPool    == { <<>>, <<"S">>, <<"S","S">> }
-FirstPool == { <<>>, <<"K">>, <<"K","C","K">>, <<"H","K">>, <<"C">>, <<"D">>, <<"K","S">>, <<"U">>, <<"K","S","K">> }
-ContPool  == { <<"K">>, <<"C","K">>, <<"D">>, <<"U","S","U">>, <<"K","C">>, <<"K","H">> }
+FirstPool == { <<>>, <<"K">>, <<"K","C","K">>, <<"H","K">>, <<"C">>, <<"D">>, <<"K","S">>, <<"U">>, <<"K","S","K">>,
+               <<"K","S","H","S","K">>, <<"K","S","H">> }    \* ("b # c", "b #": a '#' inside a value is text, not a comment)
+ContPool  == { <<"K">>, <<"C","K">>, <<"D">>, <<"U","S","U">>, <<"K","C">>, <<"K","H">>, <<"K","S","H","S","K">> }
 IndPool   == { <<"S">>, <<"S","S">> }
 Cmt       == HLine(<<"H","K","C","S","K">>)         \* a comment that looks like a field
 Cmt2      == HLine(<<"H">>)
